@@ -17,6 +17,12 @@ pub struct PW<'a> {
     pub s: Sys,
     pub t: &'a mut Tracer,
     pub mask: Mask,
+    /// when replaying a TLC behaviour of MC_Pool: the model's prediction for the next event
+    pub model_note: Option<Value>,
+    /// accounts (model name, address) and denoms (model name, real denom) whose balance changes since `base` are reported with it
+    pub watch: Vec<(String, Addr)>,
+    pub watch_denoms: Vec<(String, String)>,
+    pub base: Vec<Vec<u128>>,
 }
 
 pub fn fees(protocol: u64, swap: u64, burn: u64, extra: &[u64]) -> PoolFee {
@@ -69,7 +75,7 @@ impl<'a> PW<'a> {
         let mask = Mask { pools: true, farms: true, epoch: true, owners: false };
         let st = s.snapshot(mask);
         t.reset(name, st);
-        PW { s, t, mask }
+        PW { s, t, mask, model_note: None, watch: vec![], watch_denoms: vec![], base: vec![] }
     }
     pub fn user(&self, i: usize) -> Addr {
         self.s.users[i].clone()
@@ -83,6 +89,21 @@ impl<'a> PW<'a> {
             o.insert("errtext".into(), json!(err_text(e)));
         }
         o.insert("post".into(), post);
+        match self.model_note.take() {
+            Some(m) => {
+                let mut delta = serde_json::Map::new();
+                for (i, (name, addr)) in self.watch.iter().enumerate() {
+                    let mut per = serde_json::Map::new();
+                    for (j, (dn, real)) in self.watch_denoms.iter().enumerate() {
+                        let now = self.s.balance(addr, real) as i128;
+                        per.insert(dn.clone(), json!((now - self.base[i][j] as i128) as i64));
+                    }
+                    delta.insert(name.clone(), Value::Object(per));
+                }
+                o.insert("model".into(), json!({"set": true, "post": m, "delta": Value::Object(delta)}));
+            }
+            None => { o.insert("model".into(), json!({"set": false})); }
+        }
         self.t.emit(ev, body);
         r.is_ok()
     }
